@@ -20,6 +20,7 @@ func init() {
 const pkgAnn = "core/annotations"
 
 func checkC16(c *Ctx, r *Report) {
+	defer func() { ruleRegexInventory(c, r, "C16.a", "core/annotations", "gast") }()
 	defer checkProcessWideState(c, r, "C16.c")
 	w := c.W
 	r.NotDecided = append(r.NotDecided, "the language accepted by parsingRegex (greedy `{.*}`, braces or `)` inside strings), i.e. that every well-formed line parses back to what was written", "byte/rune offset arithmetic with multibyte text", "json5 library semantics", "GetCastProperty conversions over all value shapes")
